@@ -339,8 +339,19 @@ fn exec_ecdsa(case: &[i64]) -> Outcome {
 fn exec_verifiers(case: &[i64]) -> Outcome {
   let (which, alg, fam) = (case[2], case[3], case[4]); let mut v = &case[5..];
   let crv = String::from_utf8(take_bytes(&mut v).unwrap()).unwrap(); let x = String::from_utf8(take_bytes(&mut v).unwrap()).unwrap(); let y = String::from_utf8(take_bytes(&mut v).unwrap()).unwrap();
-  let sig = take_bytes(&mut v).unwrap(); let msg = take_bytes(&mut v).unwrap(); let verdict = v[2] != 0;
-  let jv = match fam { 0 => json!({"kty": "EC", "crv": crv, "x": x, "y": y}), 1 => json!({"kty": "RSA", "n": "AQAB", "e": "AQAB"}), 2 => json!({"kty": "oct", "k": "AAAA"}), _ => json!({"kty": "OKP", "crv": crv, "x": x}) };
+  let sig = take_bytes(&mut v).unwrap(); let msg = take_bytes(&mut v).unwrap(); let verdict = v[2] != 0; let prime = v.get(3).copied().unwrap_or(0);
+  let mut jv = match fam { 0 => json!({"kty": "EC", "crv": crv, "x": x, "y": y}), 1 => json!({"kty": "RSA", "n": "AQAB", "e": "AQAB"}), 2 => json!({"kty": "oct", "k": "AAAA"}), _ => json!({"kty": "OKP", "crv": crv, "x": x}) };
+  if prime != 0 {
+    // the verdict for THIS key must not depend on what the verifier was asked before: first a successful verification under ANOTHER key that carries the same kid
+    use crypto::signatures::ed25519 as ed; use p256::ecdsa::signature::Signer;
+    jv["kid"] = json!("same-label");
+    let m0 = b"priming message".to_vec();
+    if which == 0 { let sk = ed::SecretKey::from_bytes(&[7u8; 32]); let k: Jwk = serde_json::from_value(json!({"kty": "OKP", "crv": "Ed25519", "x": encode_b64(sk.public_key().as_slice()), "kid": "same-label"})).unwrap();
+      let _ = identity_eddsa_verifier::EdDSAJwsVerifier::default().verify(VerificationInput { alg: JwsAlgorithm::EdDSA, signing_input: m0.clone().into_boxed_slice(), decoded_signature: sk.sign(&m0).to_bytes().to_vec().into_boxed_slice() }, &k); }
+    else { let sk = p256::ecdsa::SigningKey::from_slice(&[7u8; 32]).unwrap(); let p = sk.verifying_key().to_encoded_point(false); let s: p256::ecdsa::Signature = sk.sign(&m0);
+      let k: Jwk = serde_json::from_value(json!({"kty": "EC", "crv": "P-256", "x": encode_b64(p.x().unwrap()), "y": encode_b64(p.y().unwrap()), "kid": "same-label"})).unwrap();
+      let _ = identity_ecdsa_verifier::EcDSAJwsVerifier::default().verify(VerificationInput { alg: JwsAlgorithm::ES256, signing_input: m0.clone().into_boxed_slice(), decoded_signature: s.to_bytes().to_vec().into_boxed_slice() }, &k); }
+  }
   let jwk: Jwk = match serde_json::from_value(jv) { Ok(j) => j, Err(_) => return Outcome::new(vec![-4]).class("verifier-key-rejected").trivial() };
   let a = match alg { 0 => JwsAlgorithm::EdDSA, 1 => JwsAlgorithm::ES256, 2 => JwsAlgorithm::ES256K, _ => JwsAlgorithm::ES384 };
   let input = VerificationInput { alg: a, signing_input: msg.clone().into_boxed_slice(), decoded_signature: sig.clone().into_boxed_slice() };
@@ -379,7 +390,9 @@ fn gen_verifiers(rng: &mut Rng, thorough: bool, sink: &mut Sink) {
     } };
   let mut emit = |sink: &mut Sink, which: i64, alg: i64, fam: i64, crv: &str, x: &str, y: &str, sig: &[u8], m: &[u8], tag: &str| {
     let (pok, sok, verdict) = if which == 0 { ed_flags(x, sig, m) } else { ec_flags(alg == 2, x, y, sig, m) };
-    let mut c = vec![10, 0, which, alg, fam]; put_bytes(&mut c, crv.as_bytes()); put_bytes(&mut c, x.as_bytes()); put_bytes(&mut c, y.as_bytes()); put_bytes(&mut c, sig); put_bytes(&mut c, m); c.extend([pok, sok, verdict]); sink.case(c, tag); };
+    let mut c = vec![10, 0, which, alg, fam]; put_bytes(&mut c, crv.as_bytes()); put_bytes(&mut c, x.as_bytes()); put_bytes(&mut c, y.as_bytes()); put_bytes(&mut c, sig); put_bytes(&mut c, m); c.extend([pok, sok, verdict]); sink.case(c.clone(), tag);
+    // the same question after the verifier has just verified under another key with the same kid
+    if tag.ends_with("-bytes") { c.push(1); sink.case(c, "verifier-after-another-key-same-kid"); } };
   let sig_shapes = |s: &[u8]| -> Vec<Vec<u8>> { let mut flipped = s.to_vec(); flipped[5] ^= 1; let mut lastflip = s.to_vec(); let n = lastflip.len(); lastflip[n - 1] ^= 0x80;
     vec![s.to_vec(), flipped, lastflip, s[..63].to_vec(), [s.to_vec(), vec![0]].concat(), [s.to_vec(), s.to_vec()].concat(), vec![], vec![0; 64], vec![0xff; 64], s[..32].to_vec(), [vec![0], s.to_vec()].concat()] };
   // EdDSA verifier
@@ -387,6 +400,11 @@ fn gen_verifiers(rng: &mut Rng, thorough: bool, sink: &mut Sink) {
   let x_shapes: Vec<String> = vec![ex.clone(), b(&epk.as_slice()[..31]), b(&[epk.as_slice(), &[0u8][..]].concat()), "!!".into(), "".into(), b(&[0xffu8; 32]), b(&[0u8; 32]), format!("{}=", ex), b(&[2u8; 32])];
   for alg in 0..4 { for fam in 0..4 { for crv in ["Ed25519", "Ed448", "X25519", "ed25519", "", "P-256"] { emit(sink, 0, alg, fam, crv, &ex, "", &esig, &msg, "verifier-eddsa-dispatch"); } } }
   for x in &x_shapes { for sg in sig_shapes(&esig) { for m in [&msg, &other] { emit(sink, 0, 0, 3, "Ed25519", x, "", &sg, m, "verifier-eddsa-bytes"); } } }
+  { let esk2 = ed::SecretKey::from_bytes(&[9u8; 32]); let ex2 = b(esk2.public_key().as_slice()); let esig2 = esk2.sign(&msg).to_bytes().to_vec();
+    for (x, sg) in [(&ex2, &esig), (&ex2, &esig2), (&ex, &esig2)] { emit(sink, 0, 0, 3, "Ed25519", x, "", sg, &msg, "verifier-eddsa-other-key-bytes"); } }
+  { let p_sk2 = p256::ecdsa::SigningKey::from_slice(&[9u8; 32]).unwrap(); let pp2 = p_sk2.verifying_key().to_encoded_point(false); let psig2: p256::ecdsa::Signature = p_sk2.sign(&msg);
+    let (px2, py2) = (b(pp2.x().unwrap()), b(pp2.y().unwrap())); let pxo = b(pp.x().unwrap()); let pyo = b(pp.y().unwrap());
+    for (x, y, sg) in [(&px2, &py2, psig.to_bytes().to_vec()), (&px2, &py2, psig2.to_bytes().to_vec()), (&pxo, &pyo, psig2.to_bytes().to_vec())] { emit(sink, 1, 1, 0, "P-256", x, y, &sg, &msg, "verifier-ecdsa-other-key-bytes"); } }
   // ECDSA verifier: both curves, keys of either curve under either algorithm
   let (px, py, kx, ky) = (b(pp.x().unwrap()), b(pp.y().unwrap()), b(kp.x().unwrap()), b(kp.y().unwrap()));
   for alg in 0..4 { for fam in 0..4 { for crv in ["P-256", "secp256k1", "P-384", ""] { for (x, y, sg) in [(&px, &py, psig.to_bytes().to_vec()), (&kx, &ky, ksig.to_bytes().to_vec())] { emit(sink, 1, alg, fam, crv, x, y, &sg, &msg, "verifier-ecdsa-dispatch"); } } } }
